@@ -232,12 +232,28 @@ def eval_cases(out, st, jobs=12):
     return verdicts, errors
 
 
+_LINE_OFFSETS = {}
+
+
 def input_line(out, idx):
-    with open(os.path.join(out, "inputs.jsonl")) as f:
-        for i, line in enumerate(f):
-            if i == idx:
-                return line.strip()
-    return None
+    """line idx of <out>/inputs.jsonl (offsets are indexed once per file: a broken
+    tree can make tens of thousands of cases fail, each of which is looked up)"""
+    path = os.path.join(out, "inputs.jsonl")
+    key = (path, os.path.getmtime(path), os.path.getsize(path))
+    offs = _LINE_OFFSETS.get(key)
+    if offs is None:
+        offs, pos = [], 0
+        with open(path, "rb") as f:
+            for line in f:
+                offs.append(pos)
+                pos += len(line)
+        _LINE_OFFSETS.clear()
+        _LINE_OFFSETS[key] = offs
+    if idx < 0 or idx >= len(offs):
+        return None
+    with open(path, "rb") as f:
+        f.seek(offs[idx])
+        return f.readline().decode("utf-8", "replace").strip()
 
 
 def case_term(out, st, idx):
